@@ -810,6 +810,32 @@ def check_C17(ctx):
             shown.add(lab[:40] + sc.mode)
             ctx.violation(f"[C17] {lab}: the reporters disagree: verdicts {verdicts}, failures counted {fails}", "# run under every reporter: harness/scenario_run <file> <reporter> <outdir>\n" + sc.text(),
                           found_input=True, facts={"outside_bracket": True})
+    # one reporter object used for two runs (several run_test_suite() calls; cgreen-runner given several libraries): what it has counted in
+    # the first run is still in what it reports after the second, under every reporter alike - the second run here is one passing test
+    twice = []
+    for first in ([T("a", body=["P", "F"]), T("b", body=["P"])], [T("a", body=["P"]), T("b", body=["P", "K11"])], [T("a", body=["P", "P"])], [T("a", body=["S"]), T("b", body=["F", "F"])]):
+        for shape in (0, 1):
+            sc = Scen(S("top", items=[t.copy() for t in first]) if shape == 0 else S("top", items=[S("inner", items=[t.copy() for t in first[:1]])] + [t.copy() for t in first[1:]]))
+            sc.rerun = True
+            twice.append(sc)
+    tobs = bench.run_many([(sc.text(), r) for sc in twice for r in reps])
+    k = 0
+    for sc in twice:
+        row = {}
+        for r in reps:
+            row[r] = tobs[k]; k += 1
+        verdicts = {r: status_of(o) for r, o in row.items()}
+        tt, tc = observed_totals(row["text"], "text"), observed_totals(row["cute"], "cute")
+        errs = []
+        if len(set(verdicts.values())) > 1:
+            errs.append(f"the second run's verdict differs among the reporters: {verdicts}")
+        if tt is None or tc is None or (tt[0], tt[1], tt[3]) != (tc[0], tc[1], tc[3]):
+            errs.append(f"after the second run the text reporter's totals are {tt}, CUTE's {tc} (passes, failures, skipped, exceptions)")
+        if errs and len(shown) < 10:
+            shown.add("twice" + str(len(shown)))
+            ctx.violation("[C17] one reporter used for two runs (the second: one passing test): " + "; ".join(errs), "# run under every reporter: harness/scenario_run <file> <reporter> <outdir>\n" + sc.text(),
+                          found_input=True, facts={"two_runs": True})
+    ctx.coverage["two_runs_with_one_reporter"] = len(tobs)
     ctx.coverage["correspondence"] = {"cases": len(obs) + len(lobs), "disagreements": ndis, "oracle_evaluations": len(scens) + len(late)}
     ctx.oblige("correspondence C17: model and implementation agree under every reporter", ndis == 0, f"{ndis} disagreements")
     ctx.coverage["samples"] = sample_of(scens)
@@ -1447,6 +1473,13 @@ def check_C07(ctx):
                     root = S("top", items=[T("pre", body=["P"]), inner])
                 sc = Scen(root, mode=run_mode)
                 mjobs.append((sc.text(), "text")); mmeta.append((mode_act, nfail, where, run_mode, sc))
+    # ... and it is that test's alone: the test that runs next in the same process meets strict mocks again
+    for mode_act in ("ML", "MG"):
+        for where in ("body", "context setup"):
+            for run_mode in ("fork", "inproc"):
+                first = T("first", body=[mode_act, "CU", "P"]) if where == "body" else T("first", ctx=1, setup=[mode_act], body=["CU", "P"])
+                sc = Scen(S("top", items=[first, T("t", body=["CU", "P"])]), mode=run_mode)
+                mjobs.append((sc.text(), "text")); mmeta.append((None, 1, f"body, after a test that selected {'loose' if mode_act == 'ML' else 'learning'} mocks in its {where}", run_mode, sc))
     mobs = rbench.run_many(mjobs)
     mshown = 0
     for (mode_act, nfail, where, run_mode, sc), o in zip(mmeta, mobs):
@@ -1459,6 +1492,12 @@ def check_C07(ctx):
                           found_input=True, facts={"mock_mode_where": where})
     ctx.coverage["mock_mode_selection_runs"] = len(mjobs)
     blocks = [gen_history(rng, rng.choice([3, 6, 10, 20])) for _ in range(sizes(ctx, 1500, 40000))]
+    # ... and histories in which a served call has a side effect that calls other mocked functions (the bookkeeping of the outer call must
+    # survive the nested one: what was served is used up, nothing else is)
+    blocks += [gen_history(rng, rng.choice([4, 8, 14]), side=0.4) for _ in range(sizes(ctx, 500, 12000))]
+    corpus = [["expect 1 r10", "expect 0 r20 s1:0", "expect 2 r30", "call 0", "call 2 0 0", "call 0", "tally"],
+              ["expect 0 t1 r1 s1:0", "expect 1 r2", "expect 2 r3", "call 0", "call 2 0 0", "tally"], ["expect 0 t1 r1 s1:0", "expect 1 r2", "expect 2 r3", "call 0", "tally"]]
+    blocks = corpus + blocks
     r = mocks_explore(ctx, exe, blocks, "C07", env=asan_env())
     macro_layer(ctx, impl, rng, "C07")
     if r:
